@@ -53,7 +53,7 @@ def run(rep, tier):
         "variants are obligations only there). Fail-dirty stack primitives are derived by path enumeration of "
         "impl ParserState (a path that pops and then can return Err) and mapped to built-in names through the "
         "VM's dispatch table; the restorer's recognition table is read from child_modifies_state's match arms.")
-    rep.configs = ["default", "extras"]
+    rep.configs = rep.cfgs(["default", "extras"])
     for cfg in rep.configs:
         f = facts.facts(cfg)
         meta = f.crate("pest_meta", want_feature="grammar-extras" if cfg == "extras" else None)
